@@ -16,8 +16,9 @@
      * INSERT checks the number of columns at bind time; a view is not insertable
      * SET validates at plan time (config/session.rs): partitions 1..512, batch_size 1..8192
    `step_impl` is the same function except for what the IMPLEMENTATION leaves behind when an INSERT / CTAS
-   fails during execution, or reads its own target (an `oracle` says what the storage layer made visible,
-   see model/Storage.v); it is what the real engine is compared with.
+   fails during execution (an `oracle` says what the storage layer made visible, see model/Storage.v); it is
+   what the real engine is compared with.  (An INSERT reading its own target inserts the snapshot since commit
+   2e9960218 — Storage theorem C14_insert_select_snapshot — so no oracle is needed for it any more.)
    Rows, column descriptors and names are interned identifiers (N): table contents are bags of abstract rows. *)
 From Coq Require Import List NArith ZArith Bool.
 Import ListNotations.
@@ -159,10 +160,9 @@ Definition get_var (c : settings) (v : var) : option setval :=
   end.
 
 (* what the storage layer left behind / added beyond the specification (model/Storage.v) *)
-Record oracle := { leak : option (list N);     (* failing INSERT: rows flushed before the failure stay;
+Record oracle := { leak : option (list N) }.   (* failing INSERT: rows flushed before the failure stay;
                                                  failing CTAS: Some rows = the table exists holding them *)
-                   extra : list N }.           (* INSERT reading its own target: rows read beyond the snapshot *)
-Definition no_oracle : oracle := {| leak := None; extra := [] |}.
+Definition no_oracle : oracle := {| leak := None |}.
 
 Definition same_target (scs : list (ident * schema)) (r : ref) (src : source) : bool :=
   match src with
@@ -238,22 +238,26 @@ Definition exec (o : oracle) (se : sess) (st : stmt) : (sess * res) + (sess * er
     end
   | Insert r src =>
     let (s, n) := resolve_ref r in
+    (* resolver: the target must exist, then the source must resolve; binder: a view is not insertable, then
+       the number of columns is checked *)
     match lookup scs s n with
     | None => inr (se, ENotFound)
-    | Some (View _) => inr (se, EOther)
-    | Some (Table cols rows) =>
+    | Some ent =>
       match eval_source scs src with
       | SvMissing => inr (se, ENotFound)
       | SvRows c new fails =>
-        if negb (Nat.eqb (length c) (length cols)) then inr (se, EInvalid) else
-        if fails then
-          match leak o with
-          | None => inr (se, EOther)
-          | Some lk => inr (with_schemas se (put_entry scs s n (Table cols (rows ++ lk))), EOther)
-          end
-        else
-          let add := if same_target scs r src then new ++ extra o else new in
-          inl (with_schemas se (put_entry scs s n (Table cols (rows ++ add))), RCount (lenN add))
+        match ent with
+        | View _ => inr (se, EOther)
+        | Table cols rows =>
+          if negb (Nat.eqb (length c) (length cols)) then inr (se, EInvalid) else
+          if fails then
+            match leak o with
+            | None => inr (se, EOther)
+            | Some lk => inr (with_schemas se (put_entry scs s n (Table cols (rows ++ lk))), EOther)
+            end
+          else
+            inl (with_schemas se (put_entry scs s n (Table cols (rows ++ new))), RCount (lenN new))
+        end
       end
     end
   | Ctas r c src =>
